@@ -130,6 +130,7 @@ def run(ctx):
     reals = SC.run_scripts(ctx, "session", scripts)
     for s, r in zip(scripts, reals):
         oracle(ctx, s, r)
+        W.refused_leaves_no_trace(ctx, s, r, "c18")
     ctx.sample([SC.describe(o) for o in scripts[0][1][:14]])
     ctx.count("operations", sum(len(s[1]) for s in scripts))
     ctx.extra["rule"] = ("sessions of BTS+MS tuned to each other: FAKE_DROP n [p] (n in -2..8, p in -1..13), RFMUTE, SETFORMAT 0/1 on either side interleaved with bursts and ticks "
